@@ -85,6 +85,7 @@ func (tb *c14Table) length() int { return 36 + len(tb.Body) + tb.Ext }
 
 type c14Case struct {
 	Win     int        `json:"win"`            // size of the search area in bytes (multiple of 16)
+	High    bool       `json:"high,omitempty"` // the tables live above 4 GiB (needs 8-byte entries and no 32-bit DSDT pointer)
 	Fill    uint32     `json:"fill,omitempty"` // seed of the bytes that fill the search area (0: zeroes)
 	Items   []c14Item  `json:"items,omitempty"`
 	RootRev uint8      `json:"rootrev"`           // revision byte in the header of the root table
@@ -189,31 +190,38 @@ func (r *c14Region) protectPage(idx int, prot int) {
 	r.mapped[idx] = prot != syscall.PROT_NONE
 }
 
-var c14Win, c14Arena *c14Region
+var c14Win, c14ArenaLow, c14ArenaHigh *c14Region
 
 func c14Regions() error {
 	if c14Win != nil {
 		return nil
 	}
-	mk := func(n int) (*c14Region, error) {
-		g, err := vlib.NewGuarded(n, true)
+	mk := func(n int, low bool) (*c14Region, error) {
+		g, err := vlib.NewGuarded(n, low)
 		if err != nil {
 			return nil, err
 		}
-		if uint64(g.Addr())+uint64(len(g.Data)) > 1<<32 {
+		if low && uint64(g.Addr())+uint64(len(g.Data)) > 1<<32 {
 			return nil, fmt.Errorf("MAP_32BIT mapping is not below 4 GiB")
+		}
+		if !low && uint64(g.Addr()) < 1<<32 {
+			return nil, fmt.Errorf("ordinary mapping is not above 4 GiB")
 		}
 		return &c14Region{g: g, base: g.Addr(), mapped: make([]bool, len(g.Data)/c14Page)}, nil
 	}
-	w, err := mk(c14WinMax)
+	w, err := mk(c14WinMax, true)
 	if err != nil {
 		return err
 	}
-	a, err := mk(c14ArenaPages * c14Page)
+	a, err := mk(c14ArenaPages*c14Page, true)
 	if err != nil {
 		return err
 	}
-	c14Win, c14Arena = w, a
+	h, err := mk(c14ArenaPages*c14Page, false)
+	if err != nil {
+		return err
+	}
+	c14Win, c14ArenaLow, c14ArenaHigh = w, a, h
 	return nil
 }
 
@@ -235,6 +243,7 @@ type c14Call struct {
 
 type c14Env struct {
 	c       *c14Case
+	arena   *c14Region
 	winLow  uintptr
 	blobs   []c14Blob
 	root    *c14Blob
@@ -247,7 +256,7 @@ type c14Env struct {
 	sink    bytes.Buffer
 }
 
-func (e *c14Env) addr(b *c14Blob) uintptr { return c14Arena.base + uintptr(b.off) }
+func (e *c14Env) addr(b *c14Blob) uintptr { return e.arena.base + uintptr(b.off) }
 
 type c14Sink struct{ b *bytes.Buffer }
 
@@ -313,11 +322,15 @@ func c14Build(c *c14Case) (*c14Env, error) {
 	if c.Win < 48 || c.Win > c14WinMax || c.Win%16 != 0 {
 		return nil, fmt.Errorf("window size %d", c.Win)
 	}
+	e.arena = c14ArenaLow
+	if c.High {
+		e.arena = c14ArenaHigh
+	}
 	c14Win.protectAll(syscall.PROT_READ | syscall.PROT_WRITE)
-	c14Arena.protectAll(syscall.PROT_READ | syscall.PROT_WRITE)
+	e.arena.protectAll(syscall.PROT_READ | syscall.PROT_WRITE)
 
 	// ---- arena: tables -------------------------------------------------------
-	arena := c14Arena.g.Data
+	arena := e.arena.g.Data
 	for i := range arena {
 		arena[i] = 0
 	}
@@ -383,6 +396,14 @@ func c14Build(c *c14Case) (*c14Env, error) {
 	entry := 8
 	if win >= 0 && c.Items[win].Rev == 0 {
 		entry = 4
+	}
+	if c.High {
+		if entry == 4 {
+			return nil, fmt.Errorf("tables above 4 GiB need a root table with 8-byte entries")
+		}
+		if f := c.fadt(); f != nil && f.Fadt.P40 != "zero" {
+			return nil, fmt.Errorf("tables above 4 GiB cannot be referred to by the 32-bit DSDT pointer")
+		}
 	}
 	cur := 0
 	place := func(name string, gap, n int, tb *c14Table) (*c14Blob, error) {
@@ -586,7 +607,7 @@ func c14Build(c *c14Case) (*c14Env, error) {
 
 func (e *c14Env) setPage(p uintptr, prot int) bool {
 	a := p << 12
-	for _, r := range []*c14Region{c14Win, c14Arena} {
+	for _, r := range []*c14Region{c14Win, e.arena} {
 		if r.contains(a) {
 			r.protectPage(int(a-r.base)/c14Page, prot)
 			return true
@@ -617,7 +638,7 @@ func (e *c14Env) install() {
 		}
 		// like vmm.IdentityMapRegion: whole pages starting at the frame; only the
 		// pages of the image can be (and need to be) made accessible
-		for _, r := range []*c14Region{c14Win, c14Arena} {
+		for _, r := range []*c14Region{c14Win, e.arena} {
 			lo, hi := r.base>>12, (r.base+uintptr(len(r.g.Data)))>>12
 			for p := lo; p < hi; p++ {
 				if p >= uintptr(f) && p-uintptr(f) < pages {
@@ -629,12 +650,12 @@ func (e *c14Env) install() {
 	}
 	kfmt.SetOutputSink(c14Sink{&e.sink})
 	c14Win.protectAll(syscall.PROT_NONE)
-	c14Arena.protectAll(syscall.PROT_NONE)
+	e.arena.protectAll(syscall.PROT_NONE)
 }
 
 func (e *c14Env) release() {
 	c14Win.protectAll(syscall.PROT_READ | syscall.PROT_WRITE)
-	c14Arena.protectAll(syscall.PROT_READ | syscall.PROT_WRITE)
+	e.arena.protectAll(syscall.PROT_READ | syscall.PROT_WRITE)
 	kfmt.SetOutputSink(nil)
 	mapFn, unmapFn, identityMapFn = vmm.Map, vmm.Unmap, vmm.IdentityMapRegion
 	rsdpLocationLow, rsdpLocationHi = c14ShippedLow, c14ShippedHi
@@ -653,8 +674,8 @@ func (e *c14Env) where(a uintptr) string {
 	case a >= wbase && a < lo:
 		return fmt.Sprintf("%d byte(s) before the start of the search area", lo-a)
 	}
-	if a >= c14Arena.base-c14Page && a < c14Arena.base+uintptr(len(c14Arena.g.Data))+c14Page {
-		off := int(int64(a) - int64(c14Arena.base))
+	if a >= e.arena.base-c14Page && a < e.arena.base+uintptr(len(e.arena.g.Data))+c14Page {
+		off := int(int64(a) - int64(e.arena.base))
 		for i := range e.blobs {
 			b := &e.blobs[i]
 			if off >= b.off && off < b.off+b.n {
@@ -750,7 +771,7 @@ func c14Check(cp *c14Case, e *c14Env) (fail *vlib.Failure, herr error) {
 	var kerr *kernel.Error
 	pc = vlib.CatchFault(func() { kerr = ad.DriverInit(c14Sink{&e.log}) })
 	c14Win.protectAll(syscall.PROT_READ | syscall.PROT_WRITE)
-	c14Arena.protectAll(syscall.PROT_READ | syscall.PROT_WRITE)
+	e.arena.protectAll(syscall.PROT_READ | syscall.PROT_WRITE)
 	if pc.Panicked {
 		return vlib.Failf("DriverInit: %s", e.explain(pc)), nil
 	}
@@ -976,6 +997,9 @@ func c14Classify(c *c14Case, e *c14Env) (nontrivial bool, labels []string) {
 			add("tables=6+")
 		}
 		add(fmt.Sprintf("root-rev=%d", c.RootRev))
+		if c.High && n > 0 {
+			add("tables-above-4G")
+		}
 		corrupt, notLast := 0, false
 		for i, k := range c.Order {
 			if c.Tables[k].Corrupt != 0 {
@@ -1088,6 +1112,9 @@ func c14GenSig(t *rapid.T) string {
 	for i := 1; i < 4; i++ {
 		b = append(b, c14SigRest[rapid.IntRange(0, len(c14SigRest)-1).Draw(t, "s")])
 	}
+	if s := string(b); s == "RSDT" || s == "XSDT" {
+		b[3] = '_' // the signatures of the root table itself are not used for listed tables
+	}
 	return string(b)
 }
 
@@ -1117,8 +1144,10 @@ func c14GenBody(t *rapid.T, tb *c14Table, min int) {
 	}
 }
 
-func c14GenCorrupt(t *rapid.T, tb *c14Table, percent int) {
-	if rapid.IntRange(0, 99).Draw(t, "corrupt") >= percent {
+func c14GenCorrupt(t *rapid.T, tb *c14Table) {
+	// about one in four (rapid draws small ranges almost uniformly, and
+	// shrinks towards 0 = intact)
+	if rapid.IntRange(0, 3).Draw(t, "corrupt") != 3 {
 		return
 	}
 	l := tb.length()
@@ -1303,9 +1332,16 @@ func c14Gen(t *rapid.T, st *vlib.Stats) c14Case {
 	}
 	sigs := rapid.SliceOfNDistinct(rapid.Custom(c14GenSig), ntab+2, ntab+2, func(s string) string { return s }).Draw(t, "sigs")
 	c.RootRev = rapid.SampledFrom([]uint8{0, 1, 1, 1, 2, 3}).Draw(t, "rootrev")
+	// with 8-byte entries the tables may live above 4 GiB
+	c.High = haveReal && real.Rev != 0 && rapid.IntRange(0, 2).Draw(t, "high") == 2
 	fadtAt := -1
 	if ntab > 0 && rapid.IntRange(0, 9).Draw(t, "havefadt") < 6 {
 		fadtAt = rapid.IntRange(0, ntab-1).Draw(t, "fadtat")
+	}
+	if c.High && fadtAt >= 0 && openB {
+		// the 32-bit DSDT pointer cannot agree with the others above 4 GiB
+		st.Exclude("F-C14b: FADT with tables above 4 GiB (the 32-bit pointer cannot agree with the 64-bit one; constructed around)")
+		fadtAt = -1
 	}
 	c.RootPos = rapid.IntRange(0, ntab).Draw(t, "rootpos")
 	c.Order = rapid.Permutation(c14Iota(ntab)).Draw(t, "order")
@@ -1333,7 +1369,7 @@ func c14Gen(t *rapid.T, st *vlib.Stats) c14Case {
 		} else {
 			c14GenBody(t, &tb, 0)
 		}
-		c14GenCorrupt(t, &tb, 28)
+		c14GenCorrupt(t, &tb)
 		tb.Gap = c14GenGap(t, st, acur, tb.length(), openC)
 		acur += tb.Gap + tb.length()
 		c.Tables = append(c.Tables, tb)
@@ -1344,7 +1380,7 @@ func c14Gen(t *rapid.T, st *vlib.Stats) c14Case {
 			d.Sig = sigs[ntab]
 		}
 		c14GenBody(t, d, 0)
-		c14GenCorrupt(t, d, 30)
+		c14GenCorrupt(t, d)
 		d.Gap = c14GenGap(t, st, acur, d.length(), openC)
 		acur += d.Gap + d.length()
 		c.Dsdt = d
@@ -1352,7 +1388,7 @@ func c14Gen(t *rapid.T, st *vlib.Stats) c14Case {
 		if p.P40 == "alt" || p.P140 == "alt" || p.P152 == "alt" {
 			a := &c14Table{Sig: sigs[ntab+1], Rev: 1}
 			c14GenBody(t, a, 0)
-			c14GenCorrupt(t, a, 30)
+			c14GenCorrupt(t, a)
 			a.Gap = c14GenGap(t, st, acur, a.length(), false)
 			acur += a.Gap + a.length()
 			c.Alt = a
@@ -1399,9 +1435,17 @@ func c14GenFadt(t *rapid.T, st *vlib.Stats, c *c14Case, tb *c14Table, openB bool
 	tb.Body = rapid.SliceOfN(rapid.Byte(), body, body).Draw(t, "fadtbody")
 	tb.Fadt = &c14Ptrs{}
 	p := tb.Fadt
+	if c.High && total < 148 {
+		total = 148 + total%100 // needs an X_DSDT field
+		body = total - 36
+		tb.Body = append(tb.Body, make([]byte, body-len(tb.Body))...)
+	}
 	kind := rapid.SampledFrom([]string{"both", "both", "only32", "only64", "differ"}).Draw(t, "fadtptrs")
 	if total < 148 {
 		kind = "only32"
+	}
+	if c.High {
+		kind = "only64"
 	}
 	if openB {
 		// every candidate agrees, so the expectation does not depend on which one is read
